@@ -249,6 +249,97 @@ def nested_job(arg):
     return rep
 
 
+CLASS_SRC = """import dataclasses
+import dds
+
+
+@dataclasses.dataclass
+class Config:
+    a: object
+    b: object = 0
+
+    def total(self):
+        return (self.a, self.b)
+
+
+class Base(object):
+    def __init__(self, a, b=0):
+        self.a = a
+        self.b = b
+
+    def total(self):
+        return (self.a, self.b)
+
+
+class Child(Base):
+    def extra(self):
+        return ("extra", self.a)
+
+
+class Explicit(object):
+    def __init__(self, a, b=0):
+        self.pair = (a, b)
+
+    def total(self):
+        return self.pair
+"""
+
+
+def class_job(arg):
+    """Classes as the kept callable (constructor generated by dataclass, inherited, written out): the signature follows
+    the binding of the constructor arguments like that of a function."""
+    scratch, idx = arg
+    import dds
+    from dds import _api
+    from vp.capstore import CapturingStore
+
+    rep = core.Report("C13")
+    d = os.path.join(scratch, "c13c_%d" % idx)
+    os.makedirs(os.path.join(d, "c13cpkg%d" % idx))
+    open(os.path.join(d, "c13cpkg%d" % idx, "__init__.py"), "w").write("")
+    open(os.path.join(d, "c13cpkg%d" % idx, "m.py"), "w").write(CLASS_SRC)
+    sys.path.insert(0, d)
+    mod = importlib.import_module("c13cpkg%d.m" % idx)
+    dds.accept_module("c13cpkg%d" % idx)
+    dds.set_store("memory")
+    cs = CapturingStore(_api._store_var)
+    dds.set_store(cs)
+    vals = [v for v in VALUES if v not in ("__none__", "__DDS_NONE__")]
+    for cname in ("Config", "Child", "Explicit"):
+        cls = getattr(mod, cname)
+        path = "/c13c/%s" % cname.lower()
+        by_class = {}
+        for v in vals:
+            for spelling, call in (("positional", lambda: dds.keep(path, cls, v)), ("keyword", lambda: dds.keep(path, cls, a=v)), ("explicit default", lambda: dds.keep(path, cls, v, 0)), ("keyword default", lambda: dds.keep(path, cls, v, b=0))):
+                cs.clear()
+                rep.evaluations += 1
+                rep.count("calls_class")
+                try:
+                    got = call()
+                except BaseException as e:
+                    rep.violate("kept class %s(%r) spelled %s raised %s: %s" % (cname, v, spelling, type(e).__name__, str(e)[:120]), {"cls": cname, "value": repr(v), "spelling": spelling}, mechanism="keep-raised")
+                    continue
+                tot = got.total() if hasattr(got, "total") else None
+                if V.canon_doc(tot) != V.canon_doc((v, 0)):
+                    rep.violate("kept class %s(%r) spelled %s returned an object with (a, b) = %r (the object built for another binding was served)" % (cname, v, spelling, tot),
+                                {"cls": cname, "value": repr(v), "spelling": spelling}, mechanism="class-wrong-value")
+                sg = (cs.last_sync() or {}).get(path)
+                if sg is not None:
+                    by_class.setdefault(repr(V.canon_doc(v)), set()).add(sg)
+        owner = {}
+        for ck, sigs in by_class.items():
+            rep.count("binding_classes")
+            if len(sigs) > 1:
+                rep.violate("kept class %s: %d signatures for the binding %s" % (cname, len(sigs), ck), {"cls": cname, "class": ck}, mechanism="class-same-binding-differs")
+            for sg in sigs:
+                if sg in owner and owner[sg] != ck:
+                    rep.violate("kept class %s: the bindings %s and %s share one signature" % (cname, owner[sg], ck), {"cls": cname, "classes": [owner[sg], ck]}, mechanism="class-distinct-bindings-collide")
+                owner[sg] = ck
+        if by_class:
+            rep.nontriv(("c13class", cname))
+    return rep
+
+
 def run(tier, seed):
     rep = core.Report("C13")
     rng = core.rng_for(seed, "c13")
@@ -258,7 +349,7 @@ def run(tier, seed):
         "functions with 1..%d positional-or-keyword parameters, defaults drawn from %r (all shapes for n<=2, sampled for n>=3); "
         "bindings over %r (all for n=1, sampled otherwise); every spelling = positional prefix + each permutation of keywords, "
         "each defaulted parameter explicit or omitted; each spelling is run as a direct dds.keep and as literals in a wrapper under dds.eval; then the module is rewritten with other defaults for the same "
-        "function, reloaded in the same process, and everything is asked again; plus a kept function that keeps another call on one of its own parameters (directly and through a plain helper), asked for every value and spelling. "
+        "function, reloaded in the same process, and everything is asked again; plus a kept function that keeps another call on one of its own parameters (directly and through a plain helper), asked for every value and spelling; and classes as the kept callable (constructor generated by dataclass / inherited / explicit). "
         "distinct_nontrivial = number of distinct (function shape, binding class) groups for which at least two spellings/modes were compared."
         % (nmax, DEFAULTS, VALUES)
     )
@@ -286,7 +377,7 @@ def run(tier, seed):
                 bs = list(dict.fromkeys(dflt + allb[:k]))
             jobs.append((shape, idx, bs, scratch))
         results = core.fork_map(job, jobs, timeout=600)
-        nres = core.fork_map(nested_job, [(scratch, 0)], timeout=600)
+        nres = core.fork_map(lambda j: (class_job if j[0] == "c" else nested_job)(j[1]), [("n", (scratch, 0)), ("c", (scratch, 1))], timeout=600)
     for r in nres:
         if isinstance(r, core.JobFailed):
             rep.inconclusive.append("nested job: %r" % (r,))
